@@ -5,11 +5,14 @@
    LinearOperatorMatrix.operator_norm on squares).  Executed on exact rationals and compared with the implementation by
    harness/props/C19.py on every run.  The estimate returned by the code is sqrt(q); all statements are on squares.
 
-   Not attempted: convergence of the estimates to the norm for generic start vectors (a spectral argument).  The sum-of-squares bound |M x|^2 <= (sum_ij n_ij^2) |x|^2 is
+   Convergence for generic start vectors is proved for every operator with a diagonal gram matrix A^H A = diag(g), any size
+   (C19_converges_diagonal, C19_loop_estimates); the reduction of a general A to that case (spectral theorem) is not formalised.
+   The sum-of-squares bound |M x|^2 <= (sum_ij n_ij^2) |x|^2 is
    proved for every r x c layout (C19_sum_of_squares_bound), the vertical rule for any number of rows. *)
 From Coq Require Import List Bool Arith Field Reals.
 Import ListNotations.
-From MrVerif Require Import Model.CG Model.PowerIter Model.PowerIterLit Proofs.CGProofs Proofs.PowerIterProofs Proofs.PowerIterLitProofs.
+From MrVerif Require Import Model.CG Model.PowerIter Model.PowerIterLit Proofs.CGProofs Proofs.PowerIterProofs Proofs.PowerIterLitProofs
+  Proofs.PowerIterConvergence.
 
 (* the whole outcome of the power iteration (error kind, returned squared estimates per batch element, callback sequence)
    is the same for the start vectors c * v0 and v0, for every c <> 0, every field, every family of homogeneous operators,
@@ -106,6 +109,27 @@ Theorem C19_sum_of_squares_bound : forall (grid : list (list block)), Forall (Fo
   forall xs : list (list R), (apply_grid_sq grid xs <= sum_of_squares grid * sqnorms xs)%R.
 Proof. exact grid_sum_of_squares_bound. Qed.
 Print Assumptions C19_sum_of_squares_bound.
+
+(* "converges to it for generic start vectors": G = A^H A = diag(gs) with 0 <= g_i <= M, M > 0 attained (the squared operator norm), and a
+   start vector with a non-zero component along an eigenvector of M: every estimate of the model is defined and the squared estimates
+   q_k = <u_k, G u_k>/<u_k, u_k>, u_k = G^k u_0, converge to M.  Any size, any multiplicity of the largest value, any gaps. *)
+Theorem C19_converges_diagonal : forall (M : R) (gs u : list R),
+  (0 < M)%R -> List.Forall (fun g : R => (0 <= g)%R /\ (g <= M)%R) gs -> length gs = length u ->
+  List.Exists (fun ga => fst ga = M /\ snd ga <> 0%R) (combine gs u) ->
+  (forall k, exists q, rq R 0%R Rplus Rmult Rdiv Reqb' (dmul gs) (iterG gs k u) = Some q) /\
+  Lim_seq.is_lim_seq (fun k => match rq R 0%R Rplus Rmult Rdiv Reqb' (dmul gs) (iterG gs k u) with Some q => q | None => 0%R end) (Rbar.Finite M).
+Proof. exact power_iteration_converges. Qed.
+Print Assumptions C19_converges_diagonal.
+
+(* ... and these q_k are what the loop of the model reports to the callback, pass after pass (tolerances 0) *)
+Theorem C19_loop_estimates : forall (M : R) (gs u : list R),
+  (0 < M)%R -> List.Forall (fun g : R => (0 <= g)%R /\ (g <= M)%R) gs -> length gs = length u ->
+  List.Exists (fun ga => fst ga = M /\ snd ga <> 0%R) (combine gs u) ->
+  forall n k o last,
+  snd (ploop R 0%R Rplus Rmult Rdiv Reqb' (fun _ _ => false) [dmul gs] n (mkP [iterG gs k u] [o]) last)
+  = map (fun j => [qk gs u (k + j)]) (seq 0 n).
+Proof. exact ploop_trace. Qed.
+Print Assumptions C19_loop_estimates.
 
 (* ---- non-vacuity: runs of the executed instance ---- *)
 From Coq Require Import QArith.
